@@ -85,7 +85,7 @@ def rule_gate_arg_type(ctx, rep):
         min_instances=10,
     )
     n = 0
-    for fn in ctx.prog.functions.values():
+    for fn in ctx.prog.live_functions():
         for c in walk_no_nested(fn.node):
             if isinstance(c, ast.Call) and last_attr(c.func) in ("filter_by_path_includes_or_excludes", "match_line") and c.args:
                 n += 1
@@ -182,7 +182,7 @@ def rule_original_node_position(ctx, rep):
     )
     fns = ("report_change", "add_change", "lineno_for_node", "node_position", "node_is_selected", "report_unfixed", "filter_by_result", "results_for_node")
     n = 0
-    for fn in ctx.prog.functions.values():
+    for fn in ctx.prog.live_functions():
         if fn.cls is None:
             continue
         params = fn.positional_params()
